@@ -144,3 +144,123 @@ pub fn cursor_op(align: &str, ops: &str) -> String {
     let s = run_cur(&mut std::io::Cursor::new(Vec::<u8>::new()), &ops);
     format!("cursor {} || {}", a, s)
 }
+
+// ------------------------------------------------------------------------------------------------
+// slices and exact-size iterators (C16)
+
+use crate::{FromTerm, Term};
+
+/// A generic structure holding a slice / iterator / vector in a type-parameter field.
+#[derive(Epserde, Debug, Clone)]
+pub struct Wrap<A> {
+    pub a: A,
+    pub tail: u16,
+}
+
+/// An iterator that announces a length of its own choosing.
+pub struct Lying<'a, T> {
+    it: core::slice::Iter<'a, T>,
+    announced: usize,
+}
+impl<'a, T> Iterator for Lying<'a, T> {
+    type Item = &'a T;
+    fn next(&mut self) -> Option<&'a T> {
+        self.it.next()
+    }
+    fn size_hint(&self) -> (usize, Option<usize>) {
+        (self.announced, Some(self.announced))
+    }
+}
+impl<'a, T> ExactSizeIterator for Lying<'a, T> {
+    fn len(&self) -> usize {
+        self.announced
+    }
+}
+
+pub struct SliceEntry {
+    pub rust_name: &'static str,
+    pub vec_name: fn() -> String,
+    pub wrap_name: fn() -> String,
+    pub ser3: fn(&Term) -> String,
+    pub iter: fn(&Term, usize) -> String,
+}
+
+fn ser_hex<T: Serialize>(v: &T) -> String {
+    match crate::ser_generic(v) {
+        Ok((n, b)) => {
+            if n == b.len() {
+                crate::term::hex(&b)
+            } else {
+                format!("count{}!={}", n, b.len())
+            }
+        }
+        Err(e) => e.replace(' ', "_"),
+    }
+}
+
+pub fn slice_entry_zero<T>(rust_name: &'static str) -> SliceEntry
+where
+    T: 'static + ZeroCopy + SerializeInner + TypeHash + AlignHash + FromTerm,
+    Vec<T>: Serialize,
+    for<'a> &'a [T]: Serialize,
+    Wrap<Vec<T>>: Serialize,
+    for<'a> Wrap<&'a [T]>: Serialize,
+{
+    SliceEntry {
+        rust_name,
+        vec_name: || core::any::type_name::<Vec<T>>().to_string(),
+        wrap_name: || core::any::type_name::<Wrap<Vec<T>>>().to_string(),
+        ser3: |t| {
+            let Some(v) = crate::catch(|| Vec::<T>::from_term(t)) else { return "badterm".into() };
+            let s: &[T] = &v;
+            let vv = ser_hex(&v);
+            let ss = ser_hex(&s);
+            let ii = ser_hex(&SerIter::new(v.iter()));
+            let wv = ser_hex(&Wrap { a: Vec::<T>::from_term(t), tail: 0xBEEF });
+            let ws = ser_hex(&Wrap { a: s, tail: 0xBEEF });
+            let wi = ser_hex(&Wrap { a: SerIter::new(v.iter()), tail: 0xBEEF });
+            // the source must be intact afterwards
+            let again = ser_hex(&v);
+            format!("ser3 V:{} S:{} I:{} WV:{} WS:{} WI:{} intact={}", vv, ss, ii, wv, ws, wi, again == vv)
+        },
+        iter: |t, announced| {
+            let Some(v) = crate::catch(|| Vec::<T>::from_term(t)) else { return "badterm".into() };
+            let it = SerIter::new(Lying { it: v.iter(), announced });
+            let mut out: Vec<u8> = Vec::new();
+            match crate::catch(|| it.serialize(&mut out)) {
+                None => "iter panic".into(),
+                Some(Ok(n)) => format!("iter ok {} {}", n, crate::term::hex(&out)),
+                Some(Err(ser::Error::IteratorLengthMismatch { actual, expected })) => {
+                    format!("iter mismatch {} {} {}", actual, expected, crate::term::hex(&out))
+                }
+                Some(Err(e)) => format!("iter err {:?}", e),
+            }
+        },
+    }
+}
+
+pub fn slice_entry_deep<T>(rust_name: &'static str) -> SliceEntry
+where
+    T: 'static + DeepCopy + SerializeInner + TypeHash + AlignHash + FromTerm,
+    Vec<T>: Serialize,
+    for<'a> &'a [T]: Serialize,
+    Wrap<Vec<T>>: Serialize,
+    for<'a> Wrap<&'a [T]>: Serialize,
+{
+    SliceEntry {
+        rust_name,
+        vec_name: || core::any::type_name::<Vec<T>>().to_string(),
+        wrap_name: || core::any::type_name::<Wrap<Vec<T>>>().to_string(),
+        ser3: |t| {
+            let Some(v) = crate::catch(|| Vec::<T>::from_term(t)) else { return "badterm".into() };
+            let s: &[T] = &v;
+            let vv = ser_hex(&v);
+            let ss = ser_hex(&s);
+            let wv = ser_hex(&Wrap { a: Vec::<T>::from_term(t), tail: 0xBEEF });
+            let ws = ser_hex(&Wrap { a: s, tail: 0xBEEF });
+            let again = ser_hex(&v);
+            format!("ser3 V:{} S:{} I:- WV:{} WS:{} WI:- intact={}", vv, ss, wv, ws, again == vv)
+        },
+        iter: |_, _| "iter -".into(),
+    }
+}
